@@ -839,6 +839,99 @@ Section TagProofs.
       apply strip_us_In in Hx'. apply in_map_iff in Hx'. destruct Hx' as [y [<- Hy]].
       apply lower_ascii_ident_char. rewrite forallb_forall in Hch. apply Hch, Hy.
   Qed.
+  (* ---------------- sanitize_tag_class_name (partial) ---------------- *)
+  Variable u_title : N -> str.
+  Notation nal := (fun c => negb (is_alnum c)).
+
+  Lemma split_go_ext : forall (p q : N -> bool) s cur b, (forall c, In c s -> p c = q c) ->
+    split_go p cur b s = split_go q cur b s.
+  Proof.
+    induction s as [|x s IH]; intros cur b H; [reflexivity|]. simpl.
+    rewrite (H x (or_introl eq_refl)).
+    assert (Hs : forall c, In c s -> p c = q c) by (intros c Hc; apply H; right; exact Hc).
+    destruct (q x); [destruct b; [apply IH, Hs | f_equal; apply IH, Hs] | apply IH, Hs].
+  Qed.
+
+  Lemma tag_sep_is_nal : forall s c, no_foreign_word u_word s = true -> In c s ->
+    (negb (W c) || is_us c) = negb (is_alnum c).
+  Proof.
+    intros s c G Hin. destruct (is_alnum c) eqn:Ea.
+    - rewrite (alnum_word c Ea), (alnum_not_us c Ea). reflexivity.
+    - destruct (W c) eqn:Ew; [|reflexivity].
+      pose proof (guard_word_ident s c G Hin Ew) as Hic. unfold is_ident_char in Hic. rewrite Ea in Hic.
+      simpl in *. exact Hic.
+  Qed.
+
+  Lemma py_capitalize_ascii : forall w, forallb is_alnum w = true ->
+    py_capitalize u_lower u_title u_ign u_cased w = cap_ascii w.
+  Proof.
+    intros [|c r] H; [reflexivity|]. simpl in H. apply andb_true_iff in H. destruct H as [Hc Hr].
+    unfold py_capitalize, title1. rewrite (ident_char_ascii c (is_alnum_ident_char c Hc)).
+    rewrite py_lower_go_ascii; [reflexivity|].
+    eapply forallb_imp; [|exact Hr]. intros x Hx. apply ident_char_ascii, is_alnum_ident_char, Hx.
+  Qed.
+
+  Definition tag_core (s : str) : str := concat (map cap_ascii (filter nonempty (split_on nal s))).
+
+  Lemma tag_class_name_ascii : forall s, no_foreign_word u_word s = true ->
+    tag_class_name u_word u_lower u_title u_ign u_cased s = tag_core s ++ s_client.
+  Proof.
+    intros s G. unfold tag_class_name, tag_core, split_on. f_equal.
+    rewrite (split_go_ext _ nal s [] false) by (intros c Hc; apply (tag_sep_is_nal s c G Hc)).
+    f_equal. apply map_ext_in. intros w Hw. apply py_capitalize_ascii.
+    apply filter_In in Hw. destruct Hw as [Hw _]. eapply split_go_alnum; [|exact Hw]. reflexivity.
+  Qed.
+
+  Lemma tag_core_alnum : forall s, forallb is_alnum (tag_core s) = true.
+  Proof.
+    intro s. unfold tag_core. apply forallb_concat. intros l Hl.
+    apply in_map_iff in Hl. destruct Hl as [w [<- Hw]]. apply cap_ascii_alnum.
+    apply filter_In in Hw. destruct Hw as [Hw _]. eapply split_go_alnum; [|exact Hw]. reflexivity.
+  Qed.
+
+  Lemma upper_ascii_digit : forall c, is_digit (upper_ascii c) = is_digit c.
+  Proof. intro c. unfold upper_ascii, is_lower, is_digit. destruct ((97 <=? c) && (c <=? 122)) eqn:E; [|reflexivity]. lia. Qed.
+
+  Lemma split_first_digit : forall s cur insep,
+    starts_digit (concat (map cap_ascii (filter nonempty (split_go nal cur insep s)))) =
+    match rev cur with c :: _ => is_digit c | [] => starts_digit (dropwhile nal s) end.
+  Proof.
+    induction s as [|x s IH]; intros cur insep.
+    - simpl. destruct (rev cur) as [|c r]; [reflexivity|]. simpl. apply upper_ascii_digit.
+    - cbn [split_go dropwhile]. destruct (negb (is_alnum x)) eqn:Ex.
+      + destruct insep; [apply IH|].
+        cbn [filter]. destruct (rev cur) as [|c r] eqn:Er.
+        * cbn [nonempty]. rewrite IH. reflexivity.
+        * cbn [nonempty map concat cap_ascii app starts_digit]. apply upper_ascii_digit.
+      + rewrite IH. cbn [rev]. destruct (rev cur) as [|c r]; reflexivity.
+  Qed.
+
+  Lemma client_ok : is_ident s_client = true /\ forallb is_ident_char s_client = true
+    /\ forallb (fun k => negb (suffixb s_client k)) keywords = true.
+  Proof. repeat split; vm_compute; reflexivity. Qed.
+
+  Lemma prefixb_app : forall a b, prefixb a (a ++ b) = true.
+  Proof. induction a as [|x a IH]; intro b; simpl; [reflexivity|]. rewrite N.eqb_refl. apply IH. Qed.
+
+  (* F20d / F20h excluded: the tag class name is a valid, non-keyword identifier *)
+  Theorem tag_class_name_valid_partial : forall s,
+    no_foreign_word u_word s = true -> first_alnum_not_digit s = true ->
+    valid_name (tag_class_name u_word u_lower u_title u_ign u_cased s) = true.
+  Proof.
+    intros s G Hd. rewrite tag_class_name_ascii by exact G.
+    destruct client_ok as [Hci [Hcc Hck]].
+    apply valid_name_intro.
+    - pose proof (tag_core_alnum s) as Hal.
+      pose proof (split_first_digit s [] false) as Hf. fold (split_on nal s) in Hf. fold (tag_core s) in Hf.
+      simpl rev in Hf. unfold first_alnum_not_digit in Hd. apply negb_true_iff in Hd. rewrite Hd in Hf.
+      destruct (tag_core s) as [|c r]; [exact Hci|].
+      simpl in Hal. apply andb_true_iff in Hal. destruct Hal as [Hc Hr]. simpl in Hf.
+      change ((c :: r) ++ s_client) with (c :: (r ++ s_client)). apply is_ident_of_chars.
+      + destruct (ident_char_cases c (is_alnum_ident_char c Hc)) as [H|H]; [congruence | exact H].
+      + apply forallb_app_iff. split; [|exact Hcc]. eapply forallb_imp; [apply is_alnum_ident_char | exact Hr].
+    - intro Hk. apply is_kw_In in Hk. rewrite forallb_forall in Hck. specialize (Hck _ Hk).
+      unfold suffixb in Hck. rewrite rev_app_distr, prefixb_app in Hck. discriminate Hck.
+  Qed.
 End TagProofs.
 
 (* ================================================================= appending "_<digits>" to an operation id *)
